@@ -640,6 +640,74 @@ static void do_cmsprint(const char *kind) {
 	if (!strcmp(kind, "data")) free(m.p); else if (strcmp(kind, "kai")) msg_free(m.p);
 }
 
+
+/* ---- threads <sign|env> <n> <iters>: n threads, each with its own parties, content and buffers, produce and open messages at the
+   same time; every message must open to its own content with its own parties (nothing of another thread's call may show up) */
+#include <pthread.h>
+typedef struct { int kind, id; long iters, bad; } cthr_t;
+static void *cthr_main(void *arg) {
+	cthr_t *t = arg; long n; uint8_t content[300]; size_t clen = 40 + 37 * (size_t)t->id; uint8_t *msg = malloc(16384), *out = malloc(16384);
+	memset(content, 0x40 + t->id, sizeof content);
+	for (n = 0; n < t->iters; n++) {
+		size_t ml = 0; int ok = 0; content[0] = (uint8_t)n;
+		if (t->kind == 0) {
+			CMS_CERTS_AND_KEY sg[2]; size_t ns = 1 + (size_t)(t->id & 1), i, nc = 0; int ct; const uint8_t *c, *cs, *crls, *si, *d; size_t cl, csl, crll, sil, dl;
+			for (i = 0; i < ns; i++) { int k = 1 + ((t->id + (int)i) % 6); sg[i].certs = certs[k]; sg[i].certs_len = certlens[k]; sg[i].sign_key = &keys[k]; }
+			if (cms_sign(msg, &ml, sg, ns, OID_cms_data, content, clen, NULL, 0) == 1
+				&& cms_verify(msg, ml, NULL, 0, NULL, 0, &ct, &c, &cl, &cs, &csl, &crls, &crll, &si, &sil) == 1
+				&& asn1_octet_string_from_der(&d, &dl, &c, &cl) == 1 && dl == clen && !memcmp(d, content, clen)
+				&& x509_certs_get_count(cs, csl, &nc) == 1 && nc == ns) ok = 1;
+		} else {
+			int k = 1 + (t->id % 6), k2 = 1 + ((t->id + 1) % 6), ct; uint8_t rc[4096]; size_t rl = 0, ol = 0; const uint8_t *ri, *s1, *s2; size_t ril, s1l, s2l;
+			memcpy(rc, certs[k], certlens[k]); rl = certlens[k]; memcpy(rc + rl, certs[k2], certlens[k2]); rl += certlens[k2];
+			if (cms_envelop(msg, &ml, rc, rl, OID_sm4_cbc, SYMKEY, 16, IV, 16, OID_cms_data, content, clen, NULL, 0, NULL, 0) == 1
+				&& cms_deenvelop(msg, ml, &keys[k2], certs[k2], certlens[k2], &ct, out, &ol, &ri, &ril, &s1, &s1l, &s2, &s2l) == 1
+				&& ol == clen && !memcmp(out, content, clen)) ok = 1;
+		}
+		if (!ok) t->bad++;
+	}
+	free(msg); free(out); return NULL;
+}
+static void do_cthreads(const char *kind, int n, long iters) {
+	cthr_t t[4]; pthread_t th[4]; int i; long bad = 0;
+	if (n < 1 || n > 4) { printf("ERR n"); return; }
+	for (i = 0; i < n; i++) { t[i].kind = !strcmp(kind, "sign") ? 0 : 1; t[i].id = i; t[i].iters = iters; t[i].bad = 0; }
+	for (i = 0; i < n; i++) pthread_create(&th[i], NULL, cthr_main, &t[i]);
+	for (i = 0; i < n; i++) { pthread_join(th[i], NULL); bad += t[i].bad; }
+	printf("bad=%ld", bad);
+}
+
+
+/* ---- sigtrail <n> <fill> <content>: a one-signer SignedData rewritten with n octets after the signature value inside the
+   SignerInfo's encryptedDigest (n = 0: control, must stay byte-identical and verify) */
+static void do_sigtrail(int n, int fill, const buf_t *content) {
+	int s1[] = { 1 }; blob_t m = make_signed(s1, 1, OID_cms_data, content); int t, v, da[4], ct, siv, sda, ssa, r0, r1; size_t dac;
+	const uint8_t *cp, *d, *c, *cs, *crls, *si, *o, *one, *is, *sn, *au, *sg, *un; size_t cl, dl, cl2, csl, crll, sil, olen, onel, isl, snl, aul, sgl, unl;
+	uint8_t sig2[400], si2[1024], sd[8192], *p; size_t si2l = 0, sdl = 0, total = 0; uint8_t *msg; buf_t copy;
+	if (!m.p || n < 0 || n > 200) { printf("ERR produce"); return; }
+	copy.p = malloc(content->n + 1); copy.n = content->n; memcpy(copy.p, content->p, content->n);
+	cp = m.p; cl = m.n;
+	if (cms_content_info_from_der(&t, &d, &dl, &cp, &cl) != 1 || cl
+		|| cms_signed_data_from_der(&v, da, &dac, 4, &ct, &c, &cl2, &cs, &csl, &crls, &crll, &si, &sil, &d, &dl) != 1 || dl
+		|| asn1_octet_string_from_der(&o, &olen, &c, &cl2) != 1
+		|| asn1_sequence_from_der(&one, &onel, &si, &sil) != 1 || sil) { printf("ERR parse"); msg_free(m.p); free(copy.p); return; }
+	{ const uint8_t *q = one - 0; size_t ql = onel; const uint8_t *whole = si - onel - (onel < 128 ? 2 : onel < 256 ? 3 : 4); size_t wl = (size_t)(si - whole);
+	  (void)q; (void)ql;
+	  if (cms_signer_info_from_der(&siv, &is, &isl, &sn, &snl, &sda, &au, &aul, &ssa, &sg, &sgl, &un, &unl, &whole, &wl) != 1 || wl || sgl + (size_t)n > sizeof sig2) { printf("ERR signer-info"); msg_free(m.p); free(copy.p); return; } }
+	memcpy(sig2, sg, sgl); memset(sig2 + sgl, fill, (size_t)n);
+	p = si2;
+	if (cms_signer_info_to_der(siv, is, isl, sn, snl, sda, au, aul, ssa, sig2, sgl + (size_t)n, un, unl, &p, &si2l) != 1) { printf("ERR rewrite"); msg_free(m.p); free(copy.p); return; }
+	p = sd;
+	if (cms_signed_data_to_der(v, da, dac, ct, o, olen, cs, csl, crls, crll, si2, si2l, &p, &sdl) != 1) { printf("ERR rewrite"); msg_free(m.p); free(copy.p); return; }
+	msg = malloc(sdl + 64); p = msg;
+	if (cms_content_info_header_to_der(OID_cms_signed_data, sdl, &p, &total) != 1) { printf("ERR header"); free(msg); msg_free(m.p); free(copy.p); return; }
+	memcpy(p, sd, sdl); total += sdl;
+	r0 = open_signed(&m, &copy, NULL, NULL);
+	{ blob_t m2 = { msg, total }; r1 = open_signed(&m2, &copy, NULL, NULL); }
+	printf("issued=%d rewritten=%d same-bytes=%d", r0 == 1, r1 == 1, total == m.n && !memcmp(msg, m.p, total));
+	free(msg); msg_free(m.p); free(copy.p);
+}
+
 static void handle(size_t nw, char **w) {
 	ent_seed(0xC16 + nw, -1);
 	ent_clock(1700000000);
@@ -692,6 +760,8 @@ static void handle(size_t nw, char **w) {
 	else if (!strcmp(w[0], "signseq") && nw == 5) { buf_t a = hex2buf(w[3]), b = hex2buf(w[4]); do_signseq(w[1], w[2], &a, &b); free(a.p); free(b.p); }
 	else if (!strcmp(w[0], "cmsenc") && nw >= 3) do_cmsenc(nw, w);
 	else if (!strcmp(w[0], "cmsprint") && nw == 2) do_cmsprint(w[1]);
+	else if (!strcmp(w[0], "sigtrail") && nw == 4) { buf_t c = hex2buf(w[3]); do_sigtrail(atoi(w[1]), atoi(w[2]), &c); free(c.p); }
+	else if (!strcmp(w[0], "threads") && nw == 4) do_cthreads(w[1], atoi(w[2]), strtol(w[3], NULL, 10));
 	else if (!strcmp(w[0], "cmsrt") && nw == 3) { buf_t c = hex2buf(w[2]); do_cmsrt(w[1], &c); free(c.p); }
 	else if (!strcmp(w[0], "lowseq") && nw == 6) { buf_t c = hex2buf(w[5]); do_lowseq(w[1], w[2], atoi(w[3]), atoi(w[4]), &c); free(c.p); }
 	else if (!strcmp(w[0], "enc") && nw == 3) {
